@@ -647,8 +647,9 @@ SnapViol(s, R) ==
     \cup (IF loss /\ Established(s) /\ (s.cwnd # floorC \/ s.ssthresh # half(prev.cwnd))
           THEN {V("C10_T3Cut", <<e, prev.cwnd, s.cwnd, s.ssthresh>>)} ELSE {})
     \* the SACK that triggers fast recovery may first have advanced the cumulative ack point, which grows cwnd
-    \* by at most one MTU (slow start: min(acked, MTU); congestion avoidance: one MTU) before the cut is taken
-    \cup (IF enterFR /\ ~loss /\ (s.ssthresh < half(prev.cwnd) \/ s.ssthresh > half(prev.cwnd + mtu) \/ s.cwnd # s.ssthresh)
+    \* before the cut is taken (pion's slow start: cwnd += min(bytes acked, cwnd); congestion avoidance: one MTU)
+    \cup (IF enterFR /\ ~loss /\ (s.ssthresh < half(prev.cwnd) \/ s.cwnd # s.ssthresh
+                                \/ s.ssthresh > half(IF s.cumack > prev.cumack THEN 2 * prev.cwnd ELSE prev.cwnd))
           THEN {V("C10_FastRecoveryCut", <<e, prev.cwnd, s.cwnd, s.ssthresh>>)} ELSE {})
     \cup (IF onlyData /\ sk # <<>> /\ (sk.cum # s.rcum \/ GapTSNs(sk) # SeqSet(s.held))
           THEN {V("C05_CompleteNow", <<e, sk.cum, s.rcum>>)} ELSE {})
@@ -897,7 +898,7 @@ ExpectViol(x) ==
   IN
     {V("C02_Delivered", <<msg[id].ep, msg[id].sid, id, msg[id].len>>) : id \in relMissing}
     \cup {V("C07_LaterDelivered", <<msg[id].ep, msg[id].sid, id, msg[id].len>>) : id \in prMissing}
-    \cup UNION {{V("C02_BufferedZero", <<e, y.sid, y.ba>>) : y \in {z \in {sn[e].streams[i] : i \in DOMAIN sn[e].streams} : z.known /\ z.ba # 0}}
+    \cup UNION {{V("C02_BufferedZero", <<e, y.sid, y.ba, IF y.reg THEN "registered" ELSE "unregistered">>) : y \in {z \in {sn[e].streams[i] : i \in DOMAIN sn[e].streams} : z.known /\ z.ba # 0}}
                 : e \in {q \in EP : sn[q] # NoSnap}}
     \* C19: every on-demand heartbeat went out with its info, was answered, and produced an RTT sample
     \cup UNION {LET c == misc.hbCalls[i]
